@@ -14,8 +14,7 @@ THEOREMS = ["C05_statement_refuted", "C05_prune_exact", "C05_visible_sound", "C0
             "C05_display_inherit_file_refuted", "C05_refuted_enum", "C05_refuted_internals_enum",
             "C05_refuted_common", "C05_refuted_namelist", "C05_refuted_namelist_page", "C05_refuted_final",
             "C05_refuted_doc_place"]
-REGIONS = {1: "enum-never-filtered", 2: "common-never-filtered", 4: "namelist-never-filtered",
-           8: "final-never-filtered", 16: "file-display-not-inherited", 32: "interface-doc-place"}
+REGIONS = {}      # no recorded finding is open; bit 64 = the tree has a shape FORD cannot produce
 FORD_LISTS = ["modules", "submodules", "programs", "blockdata", "functions", "subroutines", "types", "interfaces",
               "absinterfaces", "variables", "enums", "common", "namelists", "modprocedures", "modfunctions",
               "modsubroutines", "boundprocs", "finalprocs", "args"]
@@ -71,8 +70,10 @@ def ident(keys, l, obj):
     return keys.get((alt, name)) if alt else None
 
 
-def walk_ford(keys, roots):
-    """id -> (list name, object) for everything reachable from roots [(list name, object)] through the lists"""
+def walk_ford(keys, roots, known=None):
+    """id -> (list name, object) for everything reachable from roots [(list name, object)] through the lists;
+    known: {id(object): node id} of objects identified before (an enum is recognised by its first enumerator,
+    which pruning may remove)"""
     found = {}
     stack = list(roots)
     seen = set()
@@ -81,7 +82,9 @@ def walk_ford(keys, roots):
         if id(obj) in seen:
             continue
         seen.add(id(obj))
-        i = ident(keys, l, obj)
+        i = (known or {}).get(id(obj))
+        if i is None:
+            i = ident(keys, l, obj)
         if i is not None and i not in found:
             found[i] = (l, obj)
         if i is not None or l == "files":
@@ -108,9 +111,10 @@ def run_ford(files, texts, cfg):
                 __import__("os").chdir(cwd)
         except Exception as e:  # noqa — an exception of the implementation is an output
             return ("EXC", f"{type(e).__name__}: {e}")
-        after = walk_ford(keys, [("files", f) for f in p.files])
+        known = {id(o): i for i, (l, o) in before.items()}
+        after = walk_ford(keys, [("files", f) for f in p.files], known)
         # objects created by correlate() below entities that were pruned away (variables of common blocks)
-        late = walk_ford(keys, list(before.values()))
+        late = walk_ford(keys, list(before.values()), known)
         objs = {i: o for i, (l, o) in late.items()}
         objs.update({i: o for i, (l, o) in after.items()})
         objs.update({i: o for i, (l, o) in before.items()})
@@ -154,14 +158,17 @@ def check_project(chk, files, texts, cfgs, what, stats):
         impl, perms, pages = r
         allnodes = [n for f in files for n, _ in D.walk(f)]
         missing = [n["id"] for n in allnodes if n["id"] not in impl]
-        badperm = [(n["name"], n["perm"], perms[n["id"]]) for n in allnodes
-                   if n["id"] in perms and n["kind"] not in ("arg", "final", "file", "commonvar")
-                   and perms[n["id"]] != n["perm"]]
-        if missing or badperm:
-            chk.obligation("generator-matches-ford", False,
-                           f"nodes FORD does not have: {missing[:5]}; permissions that differ: {badperm[:5]}")
+        if missing:
+            chk.obligation("generator-matches-ford", False, f"nodes FORD does not have: {missing[:5]}")
             stats["generator-mismatch"] += 1
             continue
+        # entity.permission as FORD computed it is the model's input; the Spec keeps the accessibility the
+        # generator designed (Fortran's) — a difference is a C04 defect that C05 sees as leak / omission
+        for n in allnodes:
+            fp = perms.get(n["id"])
+            n["fperm"] = fp if fp in D.CP and n["kind"] not in ("arg", "final", "file", "commonvar") else None
+            if n["fperm"] and n["fperm"] != n["perm"]:
+                stats["permission-differs-from-fortran"] += 1
         for t, f in zip(coq_case(files, cfg, impl, pages), files):
             terms.append(t)
             meta.append((cfg, f))
@@ -226,11 +233,16 @@ def site_allowed(files, sel):
     for f in files:
         for _, u in f["children"]:
             procs = {D.fname(c): c for l, c in u["children"] if l in ("functions", "subroutines")}
+            ctors = {c["ctor_of"]: c for l, c in u["children"] if c["kind"] == "constructor"}
             for n, path in D.walk(u):
                 names = []
+                if n["id"] in sel and n["kind"] == "type" and n["name"] in ctors and len(path) == 1:
+                    # the page of a type presents its constructor interface and the procedures behind it
+                    ok.add(ctors[n["name"]]["id"])
+                    names = ctors[n["name"]]["members"]
                 if n["id"] in sel and n["kind"] in ("bound", "final"):
                     names = [n["target"]]
-                elif n["id"] in sel and n["kind"] == "generic":
+                elif n["id"] in sel and n["kind"] in ("generic", "constructor"):
                     names = n["members"]
                 if n["id"] in sel and n["kind"] == "modproc":
                     # `module procedure x`: its dummy arguments are those declared (and documented) in the interface
@@ -252,23 +264,11 @@ def end_to_end_one(chk, files, texts, cfg, stats, graph=False):
     sel, regs, spages = sv
     nodes = {n["id"]: (n, path) for f in files for n, path in D.walk(f)}
     allowed = sel | site_allowed(files, sel)
-    # never-filtered namelists show the documentation of the variables they list
-    nl_vars = collections.defaultdict(set)
+    # a selected namelist presents the variables it names on its page
     for i, (n, path) in nodes.items():
-        if n["kind"] == "namelist":
+        if n["kind"] == "namelist" and i in sel:
             sib = {c["name"]: c["id"] for l, c in path[-1][1]["children"] if l == "variables"}
-            for v in n["vars"]:
-                if v in sib:
-                    nl_vars[sib[v]].add(i)
-    # never-filtered final procedures present their target procedure (and its arguments)
-    via_final = set()
-    for f in files:
-        for _, u in f["children"]:
-            procs = {D.fname(c): c for l, c in u["children"] if l in ("functions", "subroutines")}
-            for n, path in D.walk(u):
-                if n["kind"] == "final" and n["id"] not in sel and n["target"] in procs:
-                    via_final.add(procs[n["target"]]["id"])
-                    via_final |= {a["id"] for a in D.kids(procs[n["target"]], "args")}
+            allowed |= {sib[v] for v in n["vars"] if v in sib}
     with F.Work(texts) as w:
         opts = {"display": cfg["display"], "proc_internals": str(cfg["proc_internals"]).lower(),
                 "hide_undoc": str(cfg["hide_undoc"]).lower(), "search": "true", "incl_src": "false",
@@ -302,39 +302,18 @@ def end_to_end_one(chk, files, texts, cfg, stats, graph=False):
             if i in allowed or i not in nodes:
                 continue
             chk.disagreements += 1
-            reg = regs.get(i, 64)
-            reg = reg & 63 if reg & 15 else reg
-            keys = [key for bit, key in REGIONS.items() if reg & bit]
-            if not keys and i in nl_vars:
-                keys = ["namelist-never-filtered"]
-            if not keys and i in via_final:
-                keys = ["final-never-filtered"]
-            if not keys:
-                n, path = nodes[i]
-                stats["e2e-leak-outside-regions"] += 1
-                chk.violation("failing-input", {"what": "documentation of an unselected entity appears in the output",
-                                                "entity": n["name"], "kind": n["kind"],
-                                                "path": [(l, q["name"]) for l, q in path], "where": sorted(where),
-                                                "cfg": cfg, "files": texts, "project": files}, True)
-            for key in keys:
-                stats["e2e-leak:" + key] += 1
-                if not any(x["key"] == key and x.get("status", "open") == "open" for x in chk.findings):
-                    chk.violation("failing-input", {"what": "documentation of an unselected entity appears "
-                                                            "(unrecorded region " + key + ")", "entity": nodes[i][0]["name"],
-                                                    "where": sorted(where), "cfg": cfg, "files": texts, "project": files}, True)
+            n, path = nodes[i]
+            stats["e2e-leak"] += 1
+            chk.violation("failing-input", {"what": "documentation of an unselected entity appears in the output",
+                                            "entity": n["name"], "kind_of_entity": n["kind"],
+                                            "path": [(l, q["name"]) for l, q in path], "where": sorted(where),
+                                            "cfg": cfg, "files": texts, "project": files}, True)
         # (2) every selected, documented entity whose parent has a page is described somewhere
         for i in sorted(sel):
             n, path = nodes[i]
             if not n["doc"] or n["kind"] == "file" or i in found:
                 continue
             parent = path[-1][1]
-            reg = regs.get(i, 64)
-            reg = reg & 63 if reg & 15 else reg
-            keys = [key for bit, key in REGIONS.items() if reg & bit]
-            if keys:              # e.g. hidden because FORD does not hand the file's display down
-                for key in keys:
-                    stats["e2e-missing:" + key] += 1
-                continue
             if parent["id"] in spages or parent["kind"] in ("module", "submodule", "program", "blockdata") \
                     or (parent["kind"] in ("function", "subroutine") and path[-2][1]["kind"] == "file"):
                 stats["e2e-missing"] += 1
